@@ -231,6 +231,12 @@ func (g *gstate) queries(n int) {
 	if g.r.Chance(1, 2) {
 		g.ops = append(g.ops, op{Kind: "GS", N: n})
 	}
+	if g.r.Chance(1, 5) {
+		g.ops = append(g.ops, op{Kind: "GB", N: n})
+	}
+	if g.r.Chance(1, 10) {
+		g.ops = append(g.ops, op{Kind: "LNI"})
+	}
 }
 
 func (g *gstate) pickNode() int {
@@ -437,7 +443,7 @@ func (g *gstate) recreateStep(n int) {
 				g.ops = append(g.ops, op{Kind: "Q", N: n, A: q[0], B: q[1], C: big})
 			}
 		}
-		g.ops = append(g.ops, op{Kind: "RRS", N: n, A: s}, op{Kind: "GS", N: n})
+		g.ops = append(g.ops, op{Kind: "RRS", N: n, A: s}, op{Kind: "GS", N: n}, op{Kind: "GB", N: n}, op{Kind: "LNI"})
 		g.queries(n)
 	}
 	ask()
@@ -447,10 +453,78 @@ func (g *gstate) recreateStep(n int) {
 	}
 }
 
+// compactStep: RemoveEntriesTo + compaction at the places that matter (the
+// snapshot index, the very end of the log, right at / next to a batch boundary,
+// the first retained entry), with every other kind of operation right after it:
+// reopen, append, overwrite starting at the first retained entry, a snapshot
+// record, a second compaction, and queries at the new first index.
+func (g *gstate) compactStep(n int) {
+	nd := &g.ref.nodes[n]
+	if len(nd.ents) < 2 {
+		u := g.appendUpdate(n, false)
+		if !g.emit(op{Kind: "SAVE", Ups: []update{u}}) {
+			return
+		}
+		g.nmuts++
+	}
+	pick := func() uint64 {
+		lo, hi := nd.marker+1, nd.last()
+		var c []uint64
+		c = append(c, lo, hi, hi-1, lo+uint64(g.r.Intn(int(hi-lo+1))))
+		if s := nd.ssidx(); s >= lo && s <= hi {
+			c = append(c, s, s)
+		}
+		for b := (lo/g.bs + 1) * g.bs; b <= hi+1; b += g.bs {
+			for _, x := range []uint64{b - 1, b, b + 1} {
+				if x >= lo && x <= hi {
+					c = append(c, x)
+				}
+			}
+		}
+		return c[g.r.Intn(len(c))]
+	}
+	rounds := 1 + g.r.Intn(2)
+	for i := 0; i < rounds && len(nd.ents) > 0; i++ {
+		if !g.emit(op{Kind: "REMTO", N: n, A: pick()}) {
+			return
+		}
+		g.nmuts++
+		g.ops = append(g.ops, op{Kind: "Q", N: n, A: nd.marker + 1, B: nd.last() + 1, C: ^uint64(0)},
+			op{Kind: "RRS", N: n, A: nd.marker})
+		switch g.r.Intn(6) {
+		case 0:
+			g.emit(op{Kind: "REOPEN"})
+		case 1:
+			if len(nd.ents) > 0 { // overwrite from the first retained entry
+				if t := nd.ents[len(nd.ents)-1].Term; g.term[n] < t {
+					g.term[n] = t
+				}
+				u := update{N: n, I0: nd.marker + 1, Ents: g.mkEnts(n, nd.marker+1, 1+g.r.Intn(len(nd.ents)+3), true)}
+				if g.emit(op{Kind: "SAVE", Ups: []update{u}}) {
+					g.nmuts++
+				}
+			}
+		case 2:
+			if g.emit(op{Kind: "SAVE", Ups: []update{g.appendUpdate(n, false)}}) {
+				g.nmuts++
+			}
+		case 3:
+			if nd.last() > nd.ssidx() {
+				g.emit(op{Kind: "SNAP", N: n, Ss: snap{Index: nd.last(), Term: maxu(nd.lastTerm(), 1), Tag: g.nextTag()}})
+			}
+		}
+		g.queries(n)
+	}
+}
+
 func (g *gstate) step() {
 	n := g.pickNode()
 	if g.r.Chance(1, 12) {
 		g.boundaryStep(n)
+		return
+	}
+	if g.r.Chance(1, 16) {
+		g.compactStep(n)
 		return
 	}
 	if g.r.Chance(1, 12) {
@@ -459,6 +533,17 @@ func (g *gstate) step() {
 	}
 	if g.r.Chance(1, 14) {
 		g.recreateStep(n)
+		return
+	}
+	if g.r.Chance(1, 16) { // bootstrap record: saved when a replica is started, overwritten, listed
+		if g.emit(op{Kind: "BOOT", N: n, A: uint64(g.r.Intn(2)), B: uint64(1 + g.r.Intn(3)), C: g.nextTag()}) {
+			g.nmuts++
+			g.ops = append(g.ops, op{Kind: "GB", N: n}, op{Kind: "LNI"})
+			if g.r.Chance(1, 3) {
+				g.emit(op{Kind: "REOPEN"})
+				g.ops = append(g.ops, op{Kind: "GB", N: n}, op{Kind: "LNI"})
+			}
+		}
 		return
 	}
 	nd := &g.ref.nodes[n]
